@@ -363,6 +363,20 @@ def build_jobs(pid, tier, seed):
             cfgs = base_cfgs(seed, 8 if quick else 60, 20 if quick else 300)
             cfgs += offset_cfgs(p, 64 if quick else 800, seed)
         jobs.append((p['name'], p, cfgs))
+    # every curated shape once more with bodies that do not suspend (all nodes inline): which scope reaches a shared node
+    # first, and whether a duplicate request gets its turn before or after the first one has finished, depends on it
+    for p in list(sel):
+        if all(n.get('mode') == 'inline' for n in p['nodes']) or any(r.get('recseq') for r in p['runs']):
+            continue
+        q = copy.deepcopy(p)
+        for n in q['nodes']:
+            n['mode'] = 'inline'
+            if n.get('cotag'):
+                n['cotag'] = False
+        q['name'] = p['name'] + '~inl'
+        q['tags'] = [t for t in p.get('tags', ()) if t != 'modes']
+        cfgs = cancel_cfgs(seed, 1, 30, 6) if pid == 'C13' else base_cfgs(seed, 2, 0)
+        jobs.append((q['name'], q, cfgs))
     sizes = {}
     try:
         with open(os.path.join(ROOT, 'spec', 'instance_sizes.json')) as f:
